@@ -502,6 +502,9 @@ func desc(v ssa.Value, depth int) string {
 		return x.Name()
 	case *ssa.FieldAddr:
 		if a, ok := x.X.(*ssa.Alloc); ok {
+			if p, isP := singleStore(a).(*ssa.Parameter); isP {
+				return desc(p, depth+1) + "." + fieldName(x.X.Type(), x.Field)
+			}
 			return allocName(a) + "." + fieldName(x.X.Type(), x.Field)
 		}
 		return desc(x.X, depth+1) + "." + fieldName(x.X.Type(), x.Field)
